@@ -22,7 +22,7 @@ fn n_tables() -> u64 {
 fn strata(t: Tier) -> Vec<Stratum> {
     vec![
         ex("small-tables-exhaustive", scale(t, n_tables(), n_tables(), 40)),
-        st("random-tables", scale(t, 30_000, 1_500_000, 10)),
+        st("random-tables", scale(t, 3_000_000, 30_000_000, 10)),
     ]
 }
 
